@@ -77,6 +77,14 @@ func runC05(p *Prog, r *Report) {
 	if want("C05.8") {
 		ruleAtomicAlignment(p, r, "C05.8")
 	}
+	if want("C05.18") {
+		// concurrent allocators never receive the same file number
+		ruleReuseFileNum(p, r, "C05.18")
+	}
+	if want("C05.17") {
+		// compaction keeps what any registered read can still see (shared with C03.3)
+		ruleDropGuard(p, r, "C05.17")
+	}
 	if want("C05.16") {
 		// transaction / large-batch records are numbered above every earlier write (shared with C11.1b)
 		ruleTrRecordSeq(p, r, "C05.16")
